@@ -16,7 +16,7 @@ def resfault_stage(rep, tier, work):
     neg = run_tlc("MCResourceFault", "MCResourceFault_skip", workers=2, timeout=300, allow_violation=True, tag="mc-c08-resfault-neg")
     if "Invariant SafeBeforeReport is violated" not in neg["stdout"]:
         raise ToolError("the deviation MCResourceFault_skip does not violate SafeBeforeReport:\n" + neg["stdout"][-1500:])
-    n = 144 if tier == "quick" else 2160          # multiples of the 72 enumerated combinations
+    n = 144 if tier == "quick" else 2160          # multiples of the 144 enumerated combinations (72 x policies from files / by config.set)
     tr = work / "resfault.ndjson"
     tpv(["resfault-run", "--seed", seed(), "--runs", n, "--out", tr], timeout=3000)
     rows = read_ndjson(tr)
